@@ -262,9 +262,9 @@ var twinPairs = func() []twinPair {
 			allowed: clipAllowed},
 		twinPair{pkg: "s2", recvA: "EdgeCrosser", fnA: "CrossingSign", recvB: "EdgeCrosser", fnB: "EdgeOrVertexCrossing", props: []string{"C03"}, why: "two-argument wrappers of the chain methods",
 			subst: map[string]string{"ChainCrossingSign": "EdgeOrVertexChainCrossing"}},
-		twinPair{pkg: "s2", recvA: "Loop", fnA: "ContainsCell", recvB: "Polygon", fnB: "ContainsCell", props: []string{"C05"}, why: "loop and polygon version of the cell predicate"},
-		twinPair{pkg: "s2", recvA: "Loop", fnA: "IntersectsCell", recvB: "Polygon", fnB: "IntersectsCell", props: []string{"C05"}, why: "loop and polygon version of the cell predicate"},
-		twinPair{pkg: "s2", recvA: "Loop", fnA: "boundaryApproxIntersects", recvB: "Polygon", fnB: "boundaryApproxIntersects", props: []string{"C05"}, why: "loop and polygon version of the boundary test"},
+		twinPair{pkg: "s2", recvA: "Loop", fnA: "ContainsCell", recvB: "Polygon", fnB: "ContainsCell", props: []string{"C05"}, why: "loop and polygon version of the cell predicate", subst: map[string]string{"Loop": "Polygon"}},
+		twinPair{pkg: "s2", recvA: "Loop", fnA: "IntersectsCell", recvB: "Polygon", fnB: "IntersectsCell", props: []string{"C05"}, why: "loop and polygon version of the cell predicate", subst: map[string]string{"Loop": "Polygon"}},
+		twinPair{pkg: "s2", recvA: "Loop", fnA: "boundaryApproxIntersects", recvB: "Polygon", fnB: "boundaryApproxIntersects", props: []string{"C05"}, why: "loop and polygon version of the boundary test", subst: map[string]string{"Loop": "Polygon"}},
 		twinPair{pkg: "s2", recvA: "CellID", fnA: "ChildBegin", recvB: "CellID", fnB: "ChildEnd", props: []string{"C01"}, why: "first child and one-past-last child",
 			subst: map[string]string{"-": "+"}},
 		twinPair{pkg: "s2", recvA: "CellID", fnA: "ChildBeginAtLevel", recvB: "CellID", fnB: "ChildEndAtLevel", props: []string{"C01"}, why: "first and one-past-last descendant at a level",
